@@ -269,7 +269,7 @@ class State:
                     lambda o, variant=variant, real=real, d=(kind, m, nOut): self.wrap_model[variant].append((d, o, real)),
                 )
         # property oracle: a forward returning a sequence of len(irreps_out) exactly-normalised tensors must pass
-        for kind, m, nOut, real in results:
+        for kind, m, nOut, real in sorted(results, key=lambda r: r[1] != 2):  # the 2-output witness first
             expected = "ok" if m == nOut else "assertLen"
             if kind != "tensor" and m == nOut and real != "ok":
                 self.found(
@@ -629,7 +629,7 @@ class State:
             kin = z.get("kin") or self.kinds_of(z["iin"])
             kout = z.get("kout") or self.kinds_of(z["iout"])
             hc = any(isinstance(k, str) for k in kin)
-            use_opts = opts if not self.quick else [opts[0]] + rng.sample(opts[1:], 3)
+            use_opts = opts * 4 if not self.quick else [opts[0]] + rng.sample(opts[1:], 3)  # thorough: 4 seeds per option
             for (nt, dp, dt) in use_opts:
                 seed = rng.randrange(2**31)
                 f, args = z["f"], z["args"]
@@ -849,7 +849,7 @@ class State:
 
     def stream_random_irreps(self):
         T, rng, o3 = self.T, self.rng, self.o3
-        N = 250 if self.quick else 3000
+        N = 250 if self.quick else 10000
         real_random = T.random
         grid = dict(n=[1, 1, 2, 3, 0, -1], lmax=[0, 2, 4, -1], mul_min=[0, 0, 1, 2, -1], mul_max=[0, 1, 3, 5],
                     len_min=[0, 0, 1, 2, -1], len_max=[0, 1, 4], clean=[False, True], allow_empty=[True, False])
@@ -881,7 +881,7 @@ class State:
             if real.startswith("ok"):
                 self.check_ri_bounds(a, items, "oracle:" + str(oracle[:20]))
         # the real PRNG, many seeds, valid argument combinations
-        M = 400 if self.quick else 5000
+        M = 400 if self.quick else 20000
         for _ in range(M):
             a = dict(n=rng.choice([1, 2, 5]), lmax=rng.choice([0, 1, 4, 7]), mul_min=rng.choice([0, 0, 1, 3]),
                      len_min=rng.choice([0, 1, 3]), clean=rng.random() < 0.5, allow_empty=rng.random() < 0.5)
